@@ -33,7 +33,7 @@ manifest = {
                  'kind_free_text': 'own AST->SMT verification-condition generator for a Python subset (symbolic interpreter, loop contracts, ghost state), z3 5.1 / cvc5 back ends; native replay in /venv/bin/python'}],
     'checks': checks,
     'notes': ('See DESIGN.md. ./check --selftest runs the mutation self-test of the engine on a scratch copy.  Repairs of genuine defects committed in /repo '
-              '(unguarded, message starts with "fix:"): 57762e2 (F16, C01), 07e6cb4 (F18, C11); recorded as fixed in known_findings.json, which also lists the '
+              '(unguarded, message starts with "fix:"; eleven commits on top of the pinned snapshot, the last two 57762e2 (F16, C01) and 07e6cb4 (F18, C11)): recorded as fixed in known_findings.json, which also lists the '
               'known findings (reported as KNOWN-FINDING lines, exit 0).  tools/validate.py validates MANIFEST.json and evidence/*.json against the schemas.'),
     'not_applicable': na,
 }
